@@ -824,4 +824,64 @@ static inline void K_fetch_viewgram(int view, int seg, int tof)
   __CPROVER_requires(GETSEG_PRE(self, timing_pos))                                                                     \
   __CPROVER_assigns(PDS_READ_ASSIGNS)                                                                                  \
   __CPROVER_ensures(!g_error ==> READ_OK)
+
+/* ================= where the layout description comes from: ProjDataInMemory constructor, ProjDataFromStream::activate_TOF =================
+   Both add up axial positions * views * tangential positions over the segments (in SEGMENT order) and store the identity TOF
+   sequence. Ghost g_sprefix: prefix sums of the axial positions in segment order; ghost TOF position g_t.
+   Postcondition = the TOF part of PD_VALID_CORE and "offset_3d_data is the size of one TOF block" (in elements resp. bytes). That
+   the total in segment order equals the total in stream order (g_prefix[NSEG]) is order-independence of a sum: not proved. */
+long g_sprefix[MAXSEGS + 1];
+int g_t, g_tseq_len, g_tseq_at_t, g_tseq_writes;
+#define SPRE_OK(k) (!((k) < NSEG(s_)) || g_sprefix[(k) + 1] == g_sprefix[k] + NAXI(s_, k))
+static inline _Bool LAYOUT_PRE(const struct PD* s_)
+{
+  return s_->min_seg > -1000 && s_->max_seg < 1000 && s_->min_seg <= s_->max_seg && NSEG(s_) <= MAXSEGS
+         && s_->min_view > -10000 && s_->min_view < 10000 && s_->max_view > -10000 && s_->max_view < 20000 && NV(s_) == C02_V
+         && s_->min_tang > -10000 && s_->min_tang < 10000 && s_->max_tang > -10000 && s_->max_tang < 20000 && NT(s_) == C02_T
+         && g_t > -100000 && g_t < 100000 && s_->min_tof > -1000 && s_->min_tof <= s_->max_tof && s_->max_tof < 1000 && s_->num_tof == s_->max_tof - s_->min_tof + 1 && s_->num_tof <= MAXT
+         && ALLS(AX_OK) && g_sprefix[0] == 0 && ALLS(SPRE_OK);
+}
+#define TSEQ_RESIZE(self, n) (g_tseq_len = (n))
+#define TSEQ_WRITE(self, i, v)                                                                                        \
+  do                                                                                                                  \
+    {                                                                                                                 \
+      __CPROVER_assert((i) >= 0 && (i) < g_tseq_len, "timing_poss_sequence written inside its size");                 \
+      if ((i) == g_t)                                                                                                 \
+        {                                                                                                             \
+          g_tseq_at_t = (v);                                                                                          \
+          ++g_tseq_writes;                                                                                            \
+        }                                                                                                             \
+    }                                                                                                                 \
+  while (0)
+#define LAYOUT_POST(self, bytes)                                                                                      \
+  (g_tseq_len == self->num_tof && ((g_t >= 0 && g_t < self->num_tof) ==> (g_tseq_writes == 1 && g_tseq_at_t == self->min_tof + g_t)) \
+   && self->offset_3d_data == g_sprefix[NSEG(self)] * C02_V * C02_T * (bytes))
+#define CONTRACT_K_pdm_ctor_layout                                                                                    \
+  __CPROVER_requires(__CPROVER_is_fresh(self, sizeof(*self)) && LAYOUT_PRE(self) && g_tseq_writes == 0)                \
+  __CPROVER_assigns(self->offset_3d_data, g_tseq_len, g_tseq_at_t, g_tseq_writes)                                      \
+  __CPROVER_ensures(LAYOUT_POST(self, 1))
+#define LC_LAYOUT_SUM(bytes_unused)                                                                                   \
+  __CPROVER_assigns(segment_num, sum)                                                                                  \
+  __CPROVER_loop_invariant(segment_num >= self->min_seg && segment_num <= self->max_seg + 1                            \
+                           && g_sprefix[segment_num - self->min_seg] >= 0 && g_sprefix[segment_num - self->min_seg] <= (long)(segment_num - self->min_seg) * 8192 \
+                           && sum == g_sprefix[segment_num - self->min_seg] * C02_V * C02_T)                          \
+  __CPROVER_decreases(self->max_seg + 1 - segment_num)
+#define LC_LAYOUT_TSEQ                                                                                                \
+  __CPROVER_assigns(i, timing_pos_num, g_tseq_at_t, g_tseq_writes)                                                     \
+  __CPROVER_loop_invariant(i >= 0 && i <= self->num_tof && timing_pos_num == self->min_tof + i)                        \
+  __CPROVER_loop_invariant(g_tseq_writes == ((g_t >= 0 && g_t < i) ? 1 : 0) && (g_tseq_writes == 1 ==> g_tseq_at_t == self->min_tof + g_t)) \
+  __CPROVER_decreases(self->num_tof - i)
+#define LC_K_pdm_ctor_layout_0 LC_LAYOUT_SUM(1)
+#define LC_K_pdm_ctor_layout_1 LC_LAYOUT_TSEQ
+/* activate_TOF: additionally maps the storage order to its 'Timing_' form (error for an unsupported one) */
+#define CONTRACT_K_pds_activate_TOF                                                                                   \
+  __CPROVER_requires(__CPROVER_is_fresh(self, sizeof(*self)) && LAYOUT_PRE(self) && g_tseq_writes == 0 && g_error == 0 && self->elsize == C02_E \
+                     && self->storage_order >= Segment_AxialPos_View_TangPos && self->storage_order <= Unsupported)    \
+  __CPROVER_assigns(self->offset_3d_data, self->storage_order, g_error, g_tseq_len, g_tseq_at_t, g_tseq_writes)        \
+  __CPROVER_ensures(g_error == (__CPROVER_old(self->storage_order) == Unsupported ? 1 : 0))                            \
+  __CPROVER_ensures(!g_error ==> (LAYOUT_POST(self, C02_E)                                                             \
+                                  && self->storage_order == ((__CPROVER_old(self->storage_order) == Segment_View_AxialPos_TangPos || __CPROVER_old(self->storage_order) == Timing_Segment_View_AxialPos_TangPos) \
+                                                                 ? Timing_Segment_View_AxialPos_TangPos : Timing_Segment_AxialPos_View_TangPos)))
+#define LC_K_pds_activate_TOF_0 LC_LAYOUT_SUM(1)
+#define LC_K_pds_activate_TOF_1 LC_LAYOUT_TSEQ
 #endif
